@@ -140,6 +140,7 @@ type vcgen struct {
 	inputs     []string
 	witness    []Wit
 
+	retTypes  map[string]types.Type
 	recSpecs  map[string][]string // recursive spec function -> state variables it takes as extra arguments
 	lockSnaps map[string]*State
 	closures  map[string]*ssa.MakeClosure
